@@ -513,6 +513,10 @@ impl Model {
         m.open_set.add_clipped(0, ehsize(c64) as u64, len);
         let shent = shentsize(c64) as u64;
         let phent = phentsize(c64) as u64;
+        // "the header table" as the file header declares it: an implementation may fetch
+        // count * declared entry size before it rejects a wrong entry size
+        let shent_decl = shent.max(e.e_shentsize as u64);
+        let phent_decl = phent.max(e.e_phentsize as u64);
 
         // shdr[0] is consulted when e_shnum == 0 (and e_shoff != 0) or e_phnum == PN_XNUM.
         let shdr0 = if e.e_shoff != 0 || e.e_phnum == PN_XNUM {
@@ -523,7 +527,7 @@ impl Model {
             None
         };
         if (e.e_shoff != 0 && e.e_shnum == 0) || (e.e_phoff != 0 && e.e_phnum == PN_XNUM) {
-            m.open_set.add_clipped(e.e_shoff, shent, len);
+            m.open_set.add_clipped(e.e_shoff, shent_decl, len);
         }
 
         if e.e_shoff != 0 {
@@ -538,8 +542,11 @@ impl Model {
                     m.present_but_empty_shdrs = true;
                 }
                 let sz = n.checked_mul(shent);
-                m.open_set
-                    .add_clipped(e.e_shoff, sz.unwrap_or(u64::MAX), len);
+                m.open_set.add_clipped(
+                    e.e_shoff,
+                    n.checked_mul(shent_decl).unwrap_or(u64::MAX),
+                    len,
+                );
                 if let Some(sz) = sz {
                     if let Some(end) = e.e_shoff.checked_add(sz) {
                         if end <= len && n <= MODEL_MAX_HDRS {
@@ -566,8 +573,11 @@ impl Model {
             m.phnum = n;
             if let Some(n) = n {
                 let sz = n.checked_mul(phent);
-                m.open_set
-                    .add_clipped(e.e_phoff, sz.unwrap_or(u64::MAX), len);
+                m.open_set.add_clipped(
+                    e.e_phoff,
+                    n.checked_mul(phent_decl).unwrap_or(u64::MAX),
+                    len,
+                );
                 if let Some(sz) = sz {
                     if let Some(end) = e.e_phoff.checked_add(sz) {
                         if end <= len && n <= MODEL_MAX_HDRS {
